@@ -82,7 +82,8 @@ std::vector<SimOp> genSimHistory(sim::Rng& g, const std::string& property) {
     int n = 0;
     std::vector<bool> measured;
     int len = g.range(3, 40);
-    static const double angles[] = {0, M_PI / 2, -M_PI / 2, M_PI, -M_PI, 2 * M_PI, -2 * M_PI, 1e-9, 1e3, 0.3, 1.1, 2.7, -4.4, 5.9, M_PI / 3, 4 * M_PI};
+    static const double angles[] = {0, M_PI / 2, -M_PI / 2, M_PI, -M_PI, 2 * M_PI, -2 * M_PI, 1e-9, 1e3, 0.3, 1.1, 2.7, -4.4, 5.9, M_PI / 3, 4 * M_PI, 1e-4, 3e-4, 5e-5, -2e-4, 1e-3, 6e-4};
+    int maxQ = g.chance(0.04) ? 12 : 7;   // a few large registers (chunked loops, strides above bit 10)
     double pReset = property == "C04" ? 0.25 : 0.1;
     double pMeasure = property == "C02" ? 0.25 : 0.12;
     for (int i = 0; i < len; ++i) {
@@ -91,7 +92,7 @@ std::vector<SimOp> genSimHistory(sim::Rng& g, const std::string& property) {
         std::vector<int> act;
         for (int q = 0; q < n; ++q)
             if (!measured[(size_t)q]) act.push_back(q);
-        if (n == 0 || (u < 0.12 && n < 7)) { o.kind = 0; ops.push_back(o); measured.push_back(false); ++n; continue; }
+        if (n == 0 || (u < (maxQ > 7 ? 0.3 : 0.12) && n < maxQ)) { o.kind = 0; ops.push_back(o); measured.push_back(false); ++n; continue; }
         if (property == "C06" && g.chance(0.08)) {
             std::vector<int> ms;
             for (int q = 0; q < n; ++q)
@@ -125,7 +126,7 @@ std::vector<SimOp> genSimHistory(sim::Rng& g, const std::string& property) {
             o.kind = 1;
             o.q = act[g.below(act.size())];
             o.gate = g.chance(0.4) ? (g.chance(0.5) ? 0 : 5) : (int)g.below(7);
-            o.angle = g.chance(0.7) ? angles[g.below(16)] : (g.unit() * 14 - 7);
+            o.angle = g.chance(0.7) ? angles[g.below(22)] : (g.unit() * 14 - 7);
             ops.push_back(o);
         }
     }
@@ -489,6 +490,8 @@ qh::Observation observe(runtime::RuntimeEvaluator* ev) {
             } else if (n[0] == 'b' && v.type == runtime::Value::Type::Bit) ob.bitvars[atoi(n.c_str() + 1)] = v.bitValue;
         }
     }
+    auto sq = ev->m_classTable.find("SQ");
+    if (sq != ev->m_classTable.end() && !sq->second->staticStorage.empty() && sq->second->staticStorage[0].type == runtime::Value::Type::Qubit) ob.declIndices["SQ.s"] = {sq->second->staticStorage[0].qubit};
     return ob;
 }
 
@@ -549,6 +552,12 @@ void boundaryChecks(ProgRun& pr, const qh::Observation& ob, int done) {
             for (int f : ob.freeList)
                 if (f == x) { push("live_qubit_on_free_list", "C03", name + " holds q[" + std::to_string(x) + "] which is on the free list"); pr.desync = true; return; }
         }
+    }
+    if (I.staticIdx >= 0) {
+        auto it = ob.declIndices.find("SQ.s");
+        if (it == ob.declIndices.end() || it->second.size() != 1 || it->second[0] != I.staticIdx) { push("handle_denotes_other_qubit", "C03", "static field SQ.s holds " + (it == ob.declIndices.end() ? std::string("nothing") : std::to_string(it->second[0])) + ", created for q[" + std::to_string(I.staticIdx) + "]"); pr.desync = true; return; }
+        if (owner.count(I.staticIdx)) { push("two_declarations_share_qubit", "C03", "SQ.s and " + owner[I.staticIdx] + " both hold q[" + std::to_string(I.staticIdx) + "]"); pr.desync = true; return; }
+        owner[I.staticIdx] = "SQ.s";
     }
     // an alias copied from an object's field must not come to share a qubit with another declaration
     for (auto& kv : I.aliasTarget) {
@@ -653,6 +662,7 @@ ProgOutcome runProgram(const qh::Plan& plan, const std::string& property, uint64
     pr.rendered = &rd;
     pr.property = property;
     pr.interp.orientation = g_orientation;
+    pr.interp.begin(plan);
     compiler::FunctionDeclaration* mainFn = nullptr;
     for (auto& f : prog->functions)
         if (f->name == "main") mainFn = f.get();
@@ -781,13 +791,34 @@ ProgOutcome runProgram(const qh::Plan& plan, const std::string& property, uint64
 
 // ---- CLI clause of C05: the .qasm file equals what --emit-qasm prints ---------------------------------
 std::string g_scratch;
+bool cliQasmFileCheckOnce(const qh::Plan& plan, int shots, std::string& detail, bool keepOldFile);
+// The file clause, including a stale file: when the plan owns no objects, the program is first run in full and
+// then truncated before its last gate with the same scripted draws, so that the second run's text is a strict
+// prefix of the file the first run left behind.
 bool cliQasmFileCheck(const qh::Plan& plan, int shots, std::string& detail) {
+    bool objects = false;
+    int lastGate = -1;
+    for (size_t i = 0; i < plan.ops.size(); ++i) {
+        if (plan.ops[i].kind == qh::NEWOBJ1 || plan.ops[i].kind == qh::NEWOBJ2 || plan.ops[i].kind == qh::CYCLE || plan.ops[i].kind == qh::ALIAS) objects = true;
+        if (plan.ops[i].kind == qh::GATE) lastGate = (int)i;
+    }
+    if (!cliQasmFileCheckOnce(plan, shots, detail, false)) return false;
+    if (!objects && lastGate > 0) {
+        qh::Plan t = plan;
+        t.ops.resize((size_t)lastGate);
+        std::string d2;
+        if (!cliQasmFileCheckOnce(t, shots, d2, true)) { detail = "after a longer run had left its .qasm file in place: " + d2; return false; }
+    }
+    return true;
+}
+bool cliQasmFileCheckOnce(const qh::Plan& plan, int shots, std::string& detail, bool keepOldFile) {
     qh::Plan p = plan;
     p.shots = shots;
     qh::Rendered rd = qh::render(p);
     std::string base = g_scratch + "/prog";
     sim::writeFile(base + ".bloch", rd.source);
-    unlink((base + ".qasm").c_str());
+    if (!keepOldFile) unlink((base + ".qasm").c_str());
+    g_rng.reset(0x5eed, 7);   // the same draws for the full and the truncated run
     std::vector<std::string> args = {"bloch", "--emit-qasm", base + ".bloch"};
     std::vector<char*> av;
     for (auto& a : args) av.push_back(const_cast<char*>(a.c_str()));
@@ -865,6 +896,9 @@ qh::GenOptions genOptionsFor(const std::string& property, sim::Rng& knob) {
     if (property == "C04") go.aliasProb = knob.chance(0.3) ? 0.12 : 0.0;
     if (property == "C03") { go.aliasProb = knob.chance(0.1) ? 0.12 : 0.0; go.cycleProb = knob.chance(0.4) ? 0.1 : 0.0; }
     if (property == "C05" || property == "C04") go.cycleProb = knob.chance(0.15) ? 0.08 : 0.0;
+    if (property == "C05" || property == "C06") go.sameQubitCxProb = 0.02;
+    go.staticQubit = knob.chance(0.12);
+    if (knob.chance(0.02)) go.maxQubits = 11;   // a few large registers
     return go;
 }
 
